@@ -408,7 +408,7 @@ class Interp:
             if not getattr(ex, "where", None):                    # innermost function and source line, once
                 ex.where = fname; ins = getattr(self, "_cur", None)
                 line = ((ins or {}).get("sourceLocation") or {}).get("line", "?") if isinstance(ins, dict) else "?"
-                ex.args = ((ex.args[0] if ex.args else "") + " [in %s, line %s of the extracted text]" % (fname, line),) + tuple(ex.args[1:])
+                ex.loc = " [in %s, line %s of the extracted text]" % (fname, line)      # kept beside the message: obligation names built from messages stay stable
             raise
         finally:
             self.frames.pop()
